@@ -71,6 +71,15 @@ pub fn mix(o: u64, l: u64, r: u64) -> u64 { ((l.wrapping_mul(0x9E3779B97F4A7C15)
 macro_rules! tagty { ($t:ident) => {
 #[derive(Clone, Copy, Debug, PartialEq)] pub struct $t(pub u64);
 """ + bin_impls + """
+// inherent methods named like the operator methods: they win over the trait's under method-call syntax, so an
+// expansion that writes `field.mul(rhs)` instead of `<Ty as Mul<_>>::mul(field, rhs)` computes POISON
+impl $t {
+""" + "".join(f"    pub fn {m}<R>(self, _r: R) -> $t {{ $t(0xBAD) }}\n    pub fn {m}_assign<R>(&mut self, _r: R) {{ self.0 = 0xBAD; }}\n"
+              for m in METHOD.values()) + """    pub fn not(self) -> $t { $t(0xBAD) }
+    pub fn neg(self) -> $t { $t(0xBAD) }
+    pub fn sum<I>(_i: I) -> $t { $t(0xBAD) }
+    pub fn product<I>(_i: I) -> $t { $t(0xBAD) }
+}
 impl core::iter::Sum for $t { fn sum<I: Iterator<Item = $t>>(i: I) -> $t { i.fold($t(1000), |a, b| a + b) } }
 impl core::iter::Product for $t { fn product<I: Iterator<Item = $t>>(i: I) -> $t { i.fold($t(2000), |a, b| a * b) } }
 } }
